@@ -32,6 +32,7 @@ func (c *Chunk) streamFlattenedDocuments(ctx context.Context) <-chan *birch.Docu
 				doc.Append(elem)
 			}
 
+			vpoint("ss.send")
 			select {
 			case out <- doc:
 				continue
@@ -52,6 +53,7 @@ func (c *Chunk) streamDocuments(ctx context.Context) <-chan *birch.Document {
 
 		for i := 0; i < c.nPoints; i++ {
 			doc, _ := restoreDocument(c.reference, i, c.Metrics, 0)
+			vpoint("ss.send")
 			select {
 			case <-ctx.Done():
 				return
